@@ -2,7 +2,7 @@
 (and, for key precision, to one mailbox / nameplate)."""
 from .engine import flat_events
 from .events import is_app_id, is_own_mailbox_id, construct_of
-from .terms import strip_wrappers, show, is_const, plain
+from .terms import strip_subsets as strip_wrappers, show, is_const, plain
 
 
 class Scope(object):
